@@ -456,6 +456,63 @@ def rule_no_line_prune(ctx, rep):
         raise AnalysisError(f"only {n} visit_* hooks found in the visitor classes")
 
 
+def rule_gate_not_over_state(ctx, rep):
+    rep.rule(
+        "R-GATE-NOT-OVER-STATE",
+        "the user's line patterns gate *edits*, not what a transformer learns about the file: a plain attribute of the transformer "
+        "(`self.flask_app_name = ...`, a flag) that another hook's condition reads is never assigned under a line gate -- otherwise excluding "
+        "(or not including) the line where the fact is established silently switches off the fixes on the permitted lines that depend on it.  "
+        "Collections of nodes gathered under the gate and looked up by node are the codemods' way of planning edits and are not meant here",
+        min_instances=1,
+    )
+    n = 0
+    seen: set[str] = set()
+    for tq in sorted(ctx.registry.transformer_classes()):
+        if tq not in ctx.prog.classes or tq in seen:
+            continue
+        seen.add(tq)
+        tm = ctx.tmodel(tq)
+        methods = tm.all_methods()
+        # attributes read in a condition somewhere in the family (plain read: `if self.a`, `self.a == x`, `self.a and ...`), through properties too
+        cond_reads: dict[str, str] = {}
+        props: dict[str, set[str]] = {}
+        for owner, m in methods:
+            if any(d.split("(")[0].split(".")[-1] in ("property", "cached_property") for d in m.decorators()):
+                props[m.name] = {x.attr for x in ast.walk(m.node) if isinstance(x, ast.Attribute) and isinstance(x.value, ast.Name) and x.value.id == "self"}
+        for owner, m in methods:
+            for t in ast.walk(m.node):
+                tests = []
+                if isinstance(t, (ast.If, ast.While, ast.IfExp)):
+                    tests = [t.test]
+                elif isinstance(t, ast.Assert):
+                    tests = [t.test]
+                for test in tests:
+                    for x in ast.walk(test):
+                        if isinstance(x, ast.Attribute) and isinstance(x.value, ast.Name) and x.value.id == "self" and isinstance(x.ctx, ast.Load):
+                            par_is_call = False
+                            for a in [x.attr] + sorted(props.get(x.attr, ())):
+                                cond_reads.setdefault(a, m.name)
+        for owner, m in methods:
+            for a in walk_no_nested(m.node):
+                if not (isinstance(a, (ast.Assign, ast.AnnAssign)) and getattr(a, "value", None) is not None):
+                    continue
+                for t in (a.targets if isinstance(a, ast.Assign) else [a.target]):
+                    if not (isinstance(t, ast.Attribute) and isinstance(t.value, ast.Name) and t.value.id == "self"):
+                        continue
+                    if m.name in ("__init__", "__post_init__") or t.attr not in cond_reads:
+                        continue
+                    if isinstance(a.value, (ast.List, ast.Dict, ast.Set, ast.ListComp, ast.DictComp, ast.SetComp)) or (isinstance(a.value, ast.Call) and last_attr(a.value.func) in ("list", "dict", "set", "defaultdict")):
+                        continue  # a collection (re)initialised
+                    n += 1
+                    roles = tm.site_roles(owner, m, a)
+                    gated = "LINE" in roles
+                    rep.check("R-GATE-NOT-OVER-STATE", tq, m.loc(a), not gated, f"{m.name}:self.{t.attr}",
+                              f"`{unparse(a)[:60]}` is executed only on permitted lines, but `self.{t.attr}` decides in {cond_reads[t.attr]}() whether other "
+                              "lines are fixed: a line pattern on this line disables fixes on lines the user permitted")
+    if n < 1:
+        raise AnalysisError("no state attribute read by a condition found in the transformer families")
+
+
 def check(ctx, rep):
     rep.explanation = (
         "All 101 registered codemods' transformer classes (71 classes + the helper visitors they drive) are analysed with the "
@@ -476,6 +533,7 @@ def check(ctx, rep):
     rule_gate_unit(ctx, rep)
     rule_multipass_lines(ctx, rep)
     rule_no_line_prune(ctx, rep)
+    rule_gate_not_over_state(ctx, rep)
     from .c06 import rule_rule_keyed
 
     # 'permitted lines are still fixed': the line patterns are applied to the construct that is edited (the transformers' gates), never to the
